@@ -140,46 +140,98 @@ Qed.
 
 Definition nonneg_flow (arcs : list arc) : Prop := forall a, In a arcs -> 0 <= net a.
 
-Theorem ssp_conserves : forall fuel e arcs arcs',
-  ssp fuel e arcs = Some arcs' -> nonneg_flow arcs ->
+Definition conserved (e e' : list Z) (arcs arcs' : list arc) : Prop :=
+  map skel arcs' = map skel arcs /\ nonneg_flow arcs' /\ length e' = length e /\
+  forall v, nz e' v + outflow arcs' v = nz e v + outflow arcs v.
+
+Lemma pick_supply_zero e ms k : pick_supply e 0 0 0 = (ms, k) -> ms =? 0 = true -> forall x, In x e -> x <= 0.
+Proof.
+  intros PS E0 x Hx. destruct (pick_supply_ge e O 0 O) as [_ B]. specialize (B x Hx).
+  rewrite PS in B. cbn [fst] in B. lia.
+Qed.
+
+Lemma ssp_step_spec e arcs : nonneg_flow arcs ->
+  match ssp_step e arcs with
+  | Done arcs' => arcs' = arcs /\ forall x, In x e -> x <= 0
+  | More e' arcs' => conserved e e' arcs arcs'
+  | Fail => True
+  end.
+Proof.
+  intros NN. unfold ssp_step.
+  destruct (pick_supply e 0 0 0) as [ms k] eqn:PS.
+  destruct (ms =? 0) eqn:E0; [split; auto; eapply pick_supply_zero; eauto|].
+  destruct (bellman (length e) arcs (setnth (repeat None (length e)) k (Some 0)) (repeat None (length e))) as [d p].
+  destruct (pick_deficit e d 0 None) as [[dd l]|]; [|exact Logic.I].
+  destruct (trace (S (length e)) arcs p k l []) as [path|] eqn:TR; [|exact Logic.I].
+  set (dl := path_delta arcs path ms).
+  destruct ((0 <? dl) && (k <? length e)%nat && (l <? length e)%nat &&
+            forallb (fun a => 0 <=? net a) (push arcs path dl)) eqn:G; [|exact Logic.I].
+  rewrite !andb_true_iff in G. destruct G as [[[G1 G2] G3] G4].
+  apply Nat.ltb_lt in G2. apply Nat.ltb_lt in G3.
+  split; [apply push_skel|]. split.
+  { intros a Ha. rewrite forallb_forall in G4. specialize (G4 a Ha). cbv beta in G4. lia. }
+  split; [rewrite !upd_length; auto|].
+  intros v.
+  assert (C : chain arcs path k l) by (eapply trace_chain; eauto; cbn [chain]; auto).
+  rewrite (push_outflow path dl v arcs k l C).
+  rewrite !nz_upd, !upd_length.
+  assert (K : (k <? length e)%nat = true) by (apply Nat.ltb_lt; auto).
+  assert (Lb : (l <? length e)%nat = true) by (apply Nat.ltb_lt; auto).
+  rewrite K, Lb, !andb_true_r. unfold b2z.
+  destruct (l =? v)%nat; destruct (k =? v)%nat; lia.
+Qed.
+
+Lemma conserved_trans e e1 e2 a a1 a2 : conserved e e1 a a1 -> conserved e1 e2 a1 a2 -> conserved e e2 a a2.
+Proof.
+  intros [S1 [N1 [L1 C1]]] [S2 [N2 [L2 C2]]]. split; [congruence|]. split; auto. split; [congruence|].
+  intros v. rewrite C2, C1. reflexivity.
+Qed.
+
+Lemma ssp_iter_spec : forall k e arcs, nonneg_flow arcs ->
+  match ssp_iter k e arcs with
+  | Done arcs' => exists e', conserved e e' arcs arcs' /\ forall x, In x e' -> x <= 0
+  | More e' arcs' => conserved e e' arcs arcs'
+  | Fail => True
+  end.
+Proof.
+  induction k as [|k IH]; intros e arcs NN; cbn [ssp_iter].
+  - pose proof (ssp_step_spec e arcs NN) as H. destruct (ssp_step e arcs) as [a|e1 a1|]; auto.
+    destruct H as [-> H]. exists e. split; auto. repeat split; auto.
+  - pose proof (IH e arcs NN) as H1. destruct (ssp_iter k e arcs) as [a|e1 a1|]; auto.
+    assert (NN1 : nonneg_flow a1) by (destruct H1 as [_ [N _]]; auto).
+    pose proof (IH e1 a1 NN1) as H2. destruct (ssp_iter k e1 a1) as [a|e2 a2|]; auto.
+    + destruct H2 as [e' [C2 Neg]]. exists e'. split; auto. eapply conserved_trans; eauto.
+    + eapply conserved_trans; eauto.
+Qed.
+
+Lemma ssp_iter_done k e arcs arcs' :
+  ssp_iter k e arcs = Done arcs' -> nonneg_flow arcs ->
   map skel arcs' = map skel arcs /\ nonneg_flow arcs' /\
   exists e', length e' = length e /\ (forall x, In x e' -> x <= 0) /\
              forall v, nz e' v + outflow arcs' v = nz e v + outflow arcs v.
 Proof.
-  induction fuel as [|f IH]; intros e arcs arcs'; cbn [ssp].
-  - destruct (pick_supply e 0 0 0) as [ms k] eqn:PS.
-    destruct (ms =? 0) eqn:E0; [|discriminate].
-    intros H NN. injection H as <-. repeat split; auto.
-    exists e. repeat split; auto.
-    intros x Hx. destruct (pick_supply_ge e O 0 O) as [_ B]. specialize (B x Hx). rewrite PS in B. cbn [fst] in B. lia.
-  - destruct (pick_supply e 0 0 0) as [ms k] eqn:PS.
-    destruct (ms =? 0) eqn:E0.
-    { intros H NN. injection H as <-. repeat split; auto.
-      exists e. repeat split; auto.
-      intros x Hx. destruct (pick_supply_ge e O 0 O) as [_ B]. specialize (B x Hx). rewrite PS in B. cbn [fst] in B. lia. }
-    destruct (bellman (length e) arcs (setnth (repeat None (length e)) k (Some 0)) (repeat None (length e))) as [d p].
-    destruct (pick_deficit e d 0 None) as [[dd l]|]; [|discriminate].
-    destruct (trace (S (length e)) arcs p k l []) as [path|] eqn:TR; [|discriminate].
-    set (dl := path_delta arcs path ms).
-    destruct ((0 <? dl) && (k <? length e)%nat && (l <? length e)%nat &&
-              forallb (fun a => 0 <=? net a) (push arcs path dl)) eqn:G; [|discriminate].
-    rewrite !andb_true_iff in G. destruct G as [[[G1 G2] G3] G4].
-    apply Nat.ltb_lt in G2. apply Nat.ltb_lt in G3.
-    intros H NN.
-    assert (NN' : nonneg_flow (push arcs path dl)).
-    { intros a Ha. rewrite forallb_forall in G4. specialize (G4 a Ha). cbv beta in G4. lia. }
-    destruct (IH _ _ _ H NN') as [S [N' [e' [L [Neg Cons]]]]].
-    split; [rewrite S; apply push_skel|]. split; auto.
-    exists e'. split; [rewrite L, !upd_length; auto|]. split; auto.
-    intros v. rewrite Cons.
-    assert (C : chain arcs path k l) by (eapply trace_chain; eauto; cbn [chain]; auto).
-    rewrite (push_outflow path dl v arcs k l C).
-    rewrite !nz_upd, !upd_length.
-    assert (K : (k <? length e)%nat = true) by (apply Nat.ltb_lt; auto).
-    assert (Lb : (l <? length e)%nat = true) by (apply Nat.ltb_lt; auto).
-    rewrite K, Lb, !andb_true_r. unfold b2z.
-    destruct (l =? v)%nat; destruct (k =? v)%nat; lia.
+  intros H NN. pose proof (ssp_iter_spec k e arcs NN) as S. rewrite H in S.
+  destruct S as [e' [[S1 [N1 [L1 C1]]] Neg]].
+  split; auto. split; auto. exists e'. auto.
 Qed.
+
+Lemma ssp_at_conserves : forall k e arcs arcs',
+  ssp_at k e arcs = Some arcs' -> nonneg_flow arcs ->
+  map skel arcs' = map skel arcs /\ nonneg_flow arcs' /\
+  exists e', length e' = length e /\ (forall x, In x e' -> x <= 0) /\
+             forall v, nz e' v + outflow arcs' v = nz e v + outflow arcs v.
+Proof.
+  intros k e arcs arcs' H NN. unfold ssp_at in H.
+  destruct (ssp_iter k e arcs) as [a|e1 a1|] eqn:E; try discriminate.
+  injection H as <-. exact (ssp_iter_done _ _ _ _ E NN).
+Qed.
+
+Theorem ssp_conserves : forall e arcs arcs',
+  ssp e arcs = Some arcs' -> nonneg_flow arcs ->
+  map skel arcs' = map skel arcs /\ nonneg_flow arcs' /\
+  exists e', length e' = length e /\ (forall x, In x e' -> x <= 0) /\
+             forall v, nz e' v + outflow arcs' v = nz e v + outflow arcs v.
+Proof. intros e arcs arcs'. exact (ssp_at_conserves ssp_levels e arcs arcs'). Qed.
 
 (* ---------------------------------------------------------------- from excesses to conservation *)
 Lemma b2z_count (x : nat) : forall nv s, zsum (map (fun v => b2z (x =? v)%nat) (seq s nv)) = b2z ((s <=? x)%nat && (x <? s + nv)%nat).
@@ -235,15 +287,15 @@ Qed.
 
 (* The solver's result is a flow: arcs unchanged, net amounts >= 0, and at every node the net
    outflow equals the supply (negative = demand) the solver was given. *)
-Theorem ssp_feasible_flow : forall fuel e arcs' arcs0,
+Theorem ssp_feasible_flow : forall e arcs' arcs0,
   (forall a, In a arcs0 -> net a = 0) -> wf_arcs (length e) arcs0 -> zsum e = 0 ->
-  ssp fuel e arcs0 = Some arcs' ->
+  ssp e arcs0 = Some arcs' ->
   map skel arcs' = map skel arcs0 /\ nonneg_flow arcs' /\
   forall v, (v < length e)%nat -> outflow arcs' v = nz e v.
 Proof.
-  intros fuel e arcs' arcs0 Z0 WF SE H.
+  intros e arcs' arcs0 Z0 WF SE H.
   assert (NN : nonneg_flow arcs0) by (intros a Ha; rewrite Z0; auto; lia).
-  destruct (ssp_conserves _ _ _ _ H NN) as [S [N' [e' [L [Neg Cons]]]]].
+  destruct (ssp_conserves _ _ _ H NN) as [S [N' [e' [L [Neg Cons]]]]].
   split; auto. split; auto.
   assert (O0 : forall v, outflow arcs0 v = 0).
   { intros v. unfold outflow. apply zsum_map_zero. intros a Ha. unfold contrib. rewrite Z0; auto. lia. }
@@ -285,7 +337,7 @@ Definition graph_ok (bb : list Z) (cc : list (list (nat * Z))) : Prop :=
    was given: same arcs, non-negative net amounts, and net outflow = supply at every node. *)
 Theorem solver_returns_flow bb cc arcs' :
   graph_ok bb cc -> zsum bb = 0 ->
-  ssp (supply_fuel bb) bb (mk_arcs cc) = Some arcs' ->
+  ssp bb (mk_arcs cc) = Some arcs' ->
   map skel arcs' = map skel (mk_arcs cc) /\ nonneg_flow arcs' /\
   forall v, (v < length bb)%nat -> outflow arcs' v = nz bb v.
 Proof.
@@ -310,7 +362,7 @@ Qed.
 Example solver_hyps_example :
   let r := reduce [5; 0; 7] [0; 9; 1] [[2; 6; 1]; [6; 6; 6]; [3; 6; 4]] (-1) in
   graph_ok (r_bb r) (r_cc r) /\ zsum (r_bb r) = 0 /\
-  exists arcs', ssp (supply_fuel (r_bb r)) (r_bb r) (mk_arcs (r_cc r)) = Some arcs'.
+  exists arcs', ssp (r_bb r) (mk_arcs (r_cc r)) = Some arcs'.
 Proof.
   cbv zeta. split; [apply graph_okb_ok; vm_compute; reflexivity|]. split; [apply reduce_balanced; reflexivity|].
   eexists. vm_compute. reflexivity.
